@@ -22,7 +22,33 @@ def reply_programs(ctx):
     return out
 
 
+def ep_programs(ctx):
+    """Entry-point configurations: override subsets x migrate x reply handler kind."""
+    import itertools
+    kinds = spec.ALL_EP_KINDS
+    subsets = [c for n in range(len(kinds) + 1) for c in itertools.combinations(kinds, n)]
+    rng0 = ctx.rng("epcfg")
+    if ctx.quick:
+        # every single-kind override, the empty and the full set, plus random subsets
+        chosen = [()] + [(k,) for k in kinds] + [tuple(kinds)] + rng0.sample(subsets, 8)
+    else:
+        chosen = subsets
+    out = {}
+    nb = ctx.pick(4, 16)
+    for i, ov in enumerate(chosen):
+        rng = ctx.rng("epcfg", i)
+        migrate = bool(i % 2) if ctx.quick else rng.random() < 0.5
+        reply = [None, "legacy", "table"][i % 3]
+        if "reply" in ov and reply is None and rng.random() < 0.5:
+            reply = "table"
+        p = spec.gen_ep_config_program(rng, f"e{i:03d}", ov, migrate, reply, True)
+        out.setdefault(f"e{i % nb:02d}", []).append(p)
+    return out
+
+
 def get(ctx, fam):
+    if fam == "epcfg":
+        return build_family(ctx, fam, ep_programs(ctx))
     if fam == "replies":
         return build_family(ctx, fam, reply_programs(ctx))
     raise KeyError(fam)
